@@ -369,6 +369,55 @@ def rule_dispatch(ctx: Ctx) -> None:
                     f"`{sub}` has no branch of its own and falls into the `{sup}` branch, whose entries are sorted: two {sub} values that differ only in order get the same key", key=f"own-branch {sub}")
 
 
+def rule_no_one_shot_reuse(ctx: Ctx) -> None:
+    """A generator can be walked ONCE.  A helper that walks its argument a second time (the fallback sort after the first sort
+    raised TypeError half-way) sees nothing the second time if a caller hands it a generator: every dict with keys that cannot be
+    ordered gets the key of the empty dict."""
+    from ..flow import bind_args
+
+    CONSUME = {"sorted", "list", "tuple", "set", "frozenset", "min", "max", "sum", "dict", "enumerate", "zip", "map", "filter", "any", "all", "next", "iter"}
+    funcs = [f for f in ctx.prog.functions_in(MOD) if f.cls is None]
+    n = 0
+    for f in funcs:
+        cfg = None
+        for p_ in f.param_names():
+            uses = []
+            for x in walk_no_nested(f.node):
+                if isinstance(x, ast.Call) and dotted(x.func) in CONSUME and x.args and isinstance(x.args[0], ast.Name) and x.args[0].id == p_:
+                    uses.append(x)
+                elif isinstance(x, (ast.For, ast.comprehension)) and isinstance(x.iter, ast.Name) and x.iter.id == p_:
+                    uses.append(x.iter)
+            if len(uses) < 2:
+                continue
+            cfg = cfg or ctx.cfg(f)
+            nodes = [cfg.node_containing(u) for u in uses]
+            if any(nd is None for nd in nodes):
+                continue
+            # a rebinding to a materialised copy ahead of every use makes re-walking harmless
+            copies = [nd for nd in cfg.nodes() if isinstance(cfg.stmt[nd], ast.Assign) and any(isinstance(t, ast.Name) and t.id == p_ for t in cfg.stmt[nd].targets)
+                      and isinstance(cfg.stmt[nd].value, ast.Call) and dotted(cfg.stmt[nd].value.func) in ("list", "tuple", "sorted", "set", "frozenset", "dict") and cfg.stmt[nd].value.args
+                      and isinstance(cfg.stmt[nd].value.args[0], ast.Name) and cfg.stmt[nd].value.args[0].id == p_]
+            pairs = [(a, b) for i, a in enumerate(nodes) for j, b in enumerate(nodes) if i != j and a != b and b in cfg.reachable_from(a)]
+            pairs = [(a, b) for a, b in pairs if not any(cfg.dominates(c_, a) and c_ != a for c_ in copies)]
+            if not pairs:
+                continue
+            n += 1
+            one_shot = []
+            for site in ctx.cg.call_sites_of(f.qualname):
+                a_ = bind_args(site.node, f).get(p_)
+                r_ = Defs(site.caller).resolve(a_) if a_ is not None else None
+                if isinstance(r_, ast.GeneratorExp) or (isinstance(r_, ast.Call) and dotted(r_.func) in ("map", "filter", "zip", "iter", "reversed", "enumerate")):
+                    one_shot.append((site, r_))
+                elif isinstance(r_, ast.Call):
+                    for callee in ctx.cg.resolve_callable(site.caller, r_.func):
+                        if any(isinstance(y, (ast.Yield, ast.YieldFrom)) for y in walk_no_nested(callee.node)):
+                            one_shot.append((site, r_))
+            ctx.add("3-order", one_shot[0][0].caller if one_shot else f, one_shot[0][0].node if one_shot else f.node, not one_shot, f"{f.name} walks `{p_}` more than once; every caller passes something that can be walked again" if not one_shot else
+                    f"`{norm(one_shot[0][0].node)[:60]}` hands {f.name} a one-shot iterator (`{norm(one_shot[0][1])[:40]}`), and {f.name} walks `{p_}` again at line {cfg.stmt[pairs[0][1]].lineno} after line {cfg.stmt[pairs[0][0]].lineno} "
+                    "(the fallback after a failed sort): the second walk finds it exhausted - all values whose elements cannot be ordered get the key of the EMPTY container", key=f"one-shot {f.name}.{p_}")
+    ctx.add("3-order", MOD, "", True, f"{n} helper parameter(s) that are walked more than once examined", key="one-shot-scan")
+
+
 def rule_order_and_recursion(ctx: Ctx) -> None:  # noqa: C901, PLR0912
     fn, branches = _to_hashable_facts(ctx)
     n3 = n4 = 0
@@ -529,6 +578,9 @@ def rule_identity(ctx: Ctx) -> None:
     ctx.floor("6-identity", n6, 9)
 
 
+LOSSY_NUMERIC = {"nan_to_num", "clip", "round", "around", "round_", "rint", "floor", "ceil", "trunc", "fix", "fabs", "absolute", "sign", "unique", "nanmax", "nanmin"}
+
+
 def rule_no_value_projection(ctx: Ctx) -> None:
     """The payload of a key is built from the value ITSELF.  An arithmetic projection of it first (`+counter` drops zero AND negative
     counts, `abs(x)`, `-x`, `x % n`, `round(x)`) maps unequal values to one key."""
@@ -541,8 +593,24 @@ def rule_no_value_projection(ctx: Ctx) -> None:
                 proj.append((f_, n_))
             if isinstance(n_, ast.Call) and dotted(n_.func) in ("abs", "round", "int", "float", "bool") and n_.args and isinstance(n_.args[0], ast.Name) and n_.args[0].id == p0 and f_ is fn:
                 proj.append((f_, n_))
+        # numeric normalisers are many-to-one as well: nan_to_num maps NaN to 0.0 and inf to the largest float, clip / round / ...
+        d_ = Defs(f_)
+        for n_ in ast.walk(f_.node):
+            if isinstance(n_, ast.Call) and (dotted(n_.func) or getattr(n_.func, "attr", "")).rsplit(".", 1)[-1] in LOSSY_NUMERIC:
+                operands = list(n_.args[:1]) + ([n_.func.value] if isinstance(n_.func, ast.Attribute) and not dotted(n_.func).startswith(("np.", "numpy.", "math.")) else [])
+                if isinstance(n_.func, ast.Attribute) and not n_.args:
+                    operands = [n_.func.value]
+                def from_value(o: ast.AST) -> bool:
+                    if any(isinstance(x, ast.Name) and x.id == p0 for x in ast.walk(d_.resolve(o))):
+                        return True
+                    # a local with several definitions (`flat = obj.flatten()` ... `flat = f(flat)`): any of them derived from the value
+                    return isinstance(o, ast.Name) and any(isinstance(a_, ast.Assign) and any(isinstance(t, ast.Name) and t.id == o.id for t in a_.targets) and any(isinstance(x, ast.Name) and x.id == p0 for x in ast.walk(a_.value))
+                                                           for a_ in ast.walk(f_.node))
+
+                if any(from_value(o) for o in operands):
+                    proj.append((f_, n_))
     ctx.add("6-identity", proj[0][0] if proj else fn, proj[0][1] if proj else fn.node, not proj, "no key is built from an arithmetic projection of the value" if not proj else
-            f"`{norm(proj[0][1])}` projects the value before it is keyed (for a Counter, unary plus removes zero and NEGATIVE counts): values that differ only in what the projection drops get the same key, "
+            f"`{norm(proj[0][1])[:60]}` projects the value before it is keyed (for a Counter, unary plus removes zero and NEGATIVE counts; nan_to_num maps NaN to 0.0 and inf to the largest float): values that differ only in what the projection drops get the same key, "
             "memoize returns one's result for the other", key="no-value-projection")
 
 
@@ -591,6 +659,16 @@ def rule_stable(ctx: Ctx) -> None:
                     "whose address is reused) - unequal keys share a file and a DiskCache returns the stored result of another call", key=f"def {hn}")
             continue
         ctx.tri("7-stable", h, h.node, good and not unstable, bool(unstable), f"{hn}: pickle bytes -> digest", f"{hn} uses {unstable}: the name differs between processes", f"{hn}: derivation not recognised", key=f"def {hn}")
+    # the fallback for arbitrary objects keys them BY VALUE: the stdlib pickler stores functions and classes by reference (module
+    # + qualified name), so two objects that differ only in such content (a function of the user's script that was redefined) collide
+    ck = ctx.prog.func(f"{MOD}._cloudpickle_key")
+    dumpers = [c for f_ in Scope(ctx, ck).funcs for c in ast.walk(f_.node) if isinstance(c, ast.Call) and isinstance(c.func, ast.Attribute) and c.func.attr in ("dumps", "dump") and isinstance(c.func.value, ast.Name)]
+    mods_ = {ck.module.aliases.get(c.func.value.id, c.func.value.id) for c in dumpers}  # type: ignore[union-attr]
+    by_ref = sorted(m_ for m_ in mods_ if m_ in ("pickle", "_pickle", "marshal", "dill", "json"))
+    first_ref = next((c for c in dumpers if ck.module.aliases.get(c.func.value.id, c.func.value.id) in by_ref), None)  # type: ignore[union-attr]
+    ctx.tri("7-stable", ck, first_ref if first_ref is not None else ck.node, mods_ == {"cloudpickle"}, bool(by_ref), "the fallback key is the digest of cloudpickle bytes (content of functions / classes included)",
+            f"the fallback key is computed with `{by_ref[0] if by_ref else ''}.dumps` (where it succeeds): functions and classes of the user's script are pickled BY NAME, so objects that hold different functions under the same name "
+            "get the same key - memoize returns the result of the earlier object", "serialiser of the fallback key not recognised", key="fallback-by-value")
     # the canonical order of unordered containers must not depend on hash()/id() either
     for f in [x for x in ctx.prog.functions_in(MOD) if x.cls is None and x.name in CONVERTERS | SORTERS]:
         for c in [c for c in walk_no_nested(f.node) if isinstance(c, ast.Call) and dotted(c.func) in SORTERS | {"min", "max"}]:
@@ -697,7 +775,7 @@ def rule_sole(ctx: Ctx) -> None:  # noqa: C901
 
 def check(ctx: Ctx) -> None:
     _roles(ctx)
-    for rule in (rule_tagged, rule_dispatch, rule_order_and_recursion, rule_no_preflattening, rule_total, rule_identity, rule_no_value_projection, rule_stable, rule_sole):
+    for rule in (rule_tagged, rule_dispatch, rule_order_and_recursion, rule_no_one_shot_reuse, rule_no_preflattening, rule_total, rule_identity, rule_no_value_projection, rule_stable, rule_sole):
         ctx.run(rule)
 
 
